@@ -55,7 +55,10 @@ struct Rng
   uint64_t s[4];
   explicit Rng(uint64_t seed, uint64_t idx = 0, uint64_t stream = 0)
   {
-    uint64_t x = mix(mix(seed, idx), stream * 0x2545F4914F6CDD1DULL + 1);
+    // hash the seed first: mix(small seed, idx) alone only shifts the index sequence
+    uint64_t s0 = seed ^ 0x5851f42d4c957f2dULL;
+    uint64_t hs = splitmix64(s0);
+    uint64_t x = mix(mix(hs, idx), stream * 0x2545F4914F6CDD1DULL + 1);
     for (auto & v : s) {v = splitmix64(x);}
   }
   static uint64_t rotl(uint64_t x, int k) {return (x << k) | (x >> (64 - k));}
